@@ -234,3 +234,28 @@ CHECKS["C04"] = dict(
          "directions only (its node-only _check_normalization leaves stored centre vectors un-normalised: recorded as a note).",
     technique="Lean 4 theorem over a hand model (provenance state machine, induction over histories) + differential correspondence with Lean-evaluated spec",
 )
+
+CHECKS["C09"] = dict(
+    text=("Lean theorems (UxVerif.C09, 103 obligations) about the model of _slice_face_indices: "
+          "slice_meets_spec — for EVERY source whose own edge tables meet C02's spec and EVERY valid duplicate-free face-index list the "
+          "subset records exactly the request, every subset face has the corners of its source face in the same order (read through the "
+          "recorded node indices), its nodes/edges are exactly those of the selected faces, and its re-indexed edge tables satisfy C02's "
+          "Edges.Spec OF THE SUBSET (slice_functional); slice_eq_fresh — they equal a from-scratch edge construction on the subset; "
+          "slice_history_independent / built_grid_end_to_end — for every history of requests on the source before slicing and every order of "
+          "requests afterwards nothing raises and the same tables are reported (state machine over the variables/attributes that travel); "
+          "nodes_inclusive/edges_inclusive/slice_nodes_meets_spec — node and edge selections are inclusive; data_aligned_rank — sliced data are "
+          "the source's at the recorded indices for any rank; crosssec_iff + mask_order_irrelevant — a face is selected iff one of its edges "
+          "has end nodes strictly on opposite sides of the parallel, for any iteration order of the parallel loop; box_iff/inLon_iff/circle_iff/"
+          "knn_spec — region selectors as predicates; asis_face_edge_raises/asis_face_edge_stale/asis_holes_stale — kernel-checked "
+          "counterexamples for what the snapshot did before the two fix commits. Tie: differential run through Grid.isel / Grid.subset.* / "
+          "Grid.cross_section.constant_latitude / get_faces_at_constant_latitude and the UxDataArray counterparts on generated meshes (25% "
+          "with their own edge tables) and the MPAS sample, random materialisation histories, all index forms, antimeridian boxes, latitudes "
+          "equal to a node's; the Lean driver evaluates Slice.Spec, C03's Incidence.Spec, Touching/SameSet/CrossSpec/DataAligned on the "
+          "implementation's output and the Lean state machine must reproduce every table reported."),
+    note=_TB + "Modelled, not verified: xarray isel/attrs/drop_vars and NumPy unique/fancy indexing (differential only); reference-point "
+         "coordinates (C04) and tree distances (C11) are taken from the implementation and judged with a 1e-9 margin; numba prange "
+         "scheduling is exercised with 1/2/7/16 threads (set_num_threads per case, NUMBA_NUM_THREADS sub-processes in thorough) but only the "
+         "order-independence of the loop body is proved; Incidence.Pre of the subset is evaluated per case, not proved from the source; "
+         "geometric quantities of the subset are compared with the source's at the recorded indices (float tolerance 1e-9).",
+    technique="Lean 4 theorems over a hand model (repaired algorithm + as-is counterexamples) + differential correspondence with Lean-evaluated specs",
+)
